@@ -92,6 +92,8 @@ def show(t, depth=0):
         return f"**{show(t.x, d)}"
     if o == "yield":
         return f"yield({show(t.x, d)})"
+    if o == "setattr":
+        return f"setattr({show(t.store, d)})"
     if o == "raise":
         return f"raise({show(t.exc, d)})"
     if o == "store":
@@ -175,6 +177,25 @@ def _mutated_local(n):
     return None
 
 
+def _mutated_params(fnode, params):
+    """parameters of fnode that its own body stores into (p[k] = v, p[k] += v) or grows (p.append(v) ...)"""
+    out = set()
+    for st in ast.walk(fnode):
+        if isinstance(st, (ast.FunctionDef, ast.Lambda)) and st is not fnode:
+            continue
+        tgts = []
+        if isinstance(st, ast.Assign):
+            tgts = st.targets
+        elif isinstance(st, ast.AugAssign):
+            tgts = [st.target]
+        for t in tgts:
+            if isinstance(t, ast.Subscript) and isinstance(t.value, ast.Name) and t.value.id in params:
+                out.add(t.value.id)
+        if isinstance(st, ast.Expr) and _mutated_local(st.value) in params:
+            out.add(_mutated_local(st.value))
+    return out
+
+
 def _only_mutated(stmts, names):
     """names that are grown by method calls but never assigned in stmts"""
     assigned = set()
@@ -252,6 +273,7 @@ class Evaluator:
         self.max_depth = max_depth
         self.effects = []  # (kind, term) side effects seen while evaluating (guards, expression statements)
         self._inline_cache = {}
+        self._last_scope = None
         self.loops = []  # every loop-carried term created, in creation order (rules look a variable's loop up by (stmt, name))
         self._ctx = (0, ())  # (inlining depth, stack of function nodes being inlined) of the code being evaluated
 
@@ -280,6 +302,11 @@ class Evaluator:
         return T("ref", n, mod, ref=r)
 
     def e_Attribute(self, n, sc, mod):
+        # an attribute of a local object that was stored earlier on this path (self.top += 1; yield self.top)
+        if isinstance(n.value, ast.Name) and sc.lookup(n.value.id) is not None:
+            cur = sc.lookup(f"{n.value.id}.{n.attr}")
+            if cur is not None:
+                return cur
         # a dotted global (anp.sum, onp.linalg.norm, builtins.type ...)?
         base = n
         while isinstance(base, ast.Attribute):
@@ -427,6 +454,11 @@ class Evaluator:
         # autograd.util.func(x) is the identity
         if fn.op == "ref" and fn.ref.qual == "autograd.util.func" and len(args) == 1:
             return args[0]
+        # getattr(<module / class>, "name") with a constant name is the attribute itself
+        if fn.op == "ref" and fn.ref.qual == "builtins.getattr" and len(args) == 2 and not kw and args[1].op == "const" and isinstance(args[1].value, str) and args[0].op == "ref" and isinstance(args[0].node, (ast.Name, ast.Attribute)):
+            r = self.repo.resolve_expr(args[0].mod or mod, ast.Attribute(value=args[0].node, attr=args[1].value, ctx=ast.Load()))
+            if r is not None:
+                return T("ref", n, mod, ref=r)
         return t
 
     # ------------------------------------------------------------------ helpers
@@ -478,7 +510,11 @@ class Evaluator:
             else:
                 self.effects.append(("store", T("store", tgt, mod, obj=self.ev(b, sc, mod), idx=self.ev(tgt.slice, sc, mod), val=val)))
         elif isinstance(tgt, ast.Attribute):
-            self.effects.append(("setattr", T("store", tgt, mod, obj=self.ev(tgt.value, sc, mod), idx=const(tgt.attr), val=val)))
+            st_ = T("store", tgt, mod, obj=self.ev(tgt.value, sc, mod), idx=const(tgt.attr), val=val)
+            self.effects.append(("setattr", st_))
+            sc.effects.append(T("setattr", tgt, mod, store=st_))
+            if isinstance(tgt.value, ast.Name) and sc.lookup(tgt.value.id) is not None:
+                sc.vars[f"{tgt.value.id}.{tgt.attr}"] = val  # attribute state of a local object (flow-sensitive)
 
     # ------------------------------------------------------------------ statements
     def run(self, stmts, sc, mod):
@@ -514,6 +550,7 @@ class Evaluator:
                 self.effects.append(("expr", v))
                 sc.effects.append(v)
                 self._local_mutation(st.value, v, sc, mod)
+                self._callee_mutations(st.value, v, sc, mod)
             elif isinstance(st, ast.Assert):
                 c = self.ev(st.test, sc, mod)
                 self.effects.append(("assert", c))
@@ -553,6 +590,9 @@ class Evaluator:
                 names = _assigned_names(st.body)
                 only_mutated = _only_mutated(st.body, names)
                 names = [nm for nm in names if not (nm in only_mutated and sc.lookup(nm) is None)]
+                for nm in self._names_mutated_by_calls(st.body, sc, mod):
+                    if nm not in names:
+                        names.append(nm)
                 init = {nm: sc.lookup(nm) for nm in names}
                 # the iterable of a `for` is evaluated once, before the first iteration (pre-loop values);
                 # the test of a `while` is re-evaluated every iteration (loop-carried values)
@@ -604,6 +644,75 @@ class Evaluator:
         if old is None:
             return
         sc.vars[name] = T("grow", n, mod, obj=old, val=v.args[0], how=how)
+
+    def _mutating_callee(self, n, sc, mod):
+        """(closure, {caller name: parameter}) when the expression statement `f(a, b, ...)` calls an inlinable repo
+        function that stores into / grows one of its parameters and the matching argument is a plain local name"""
+        if not (isinstance(n, ast.Call) and isinstance(n.func, (ast.Name, ast.Attribute))):
+            return None, {}
+        if any(isinstance(a, ast.Starred) for a in n.args) or any(k.arg is None for k in n.keywords):
+            return None, {}
+        if isinstance(n.func, ast.Attribute) and not (isinstance(n.func.value, ast.Name) and sc.lookup(n.func.value.id) is None):
+            return None, {}  # a method call on a local value: not resolvable to a repo function
+        fn = self.ev(n.func, sc, mod)
+        if fn.op not in ("ref", "closure"):
+            return None, {}
+        clo, pre, prekw = self.as_closure(fn)
+        if clo is None or pre or prekw or not isinstance(clo.fnode, ast.FunctionDef):
+            return None, {}
+        a = clo.fnode.args
+        params = [p.arg for p in a.posonlyargs + a.args]
+        mut = _mutated_params(clo.fnode, set(params))
+        if not mut:
+            return None, {}
+        out = {}
+        for i, x in enumerate(n.args):
+            if i < len(params) and params[i] in mut and isinstance(x, ast.Name) and sc.lookup(x.id) is not None:
+                out[x.id] = params[i]
+        for k in n.keywords:
+            if k.arg in mut and isinstance(k.value, ast.Name) and sc.lookup(k.value.id) is not None:
+                out[k.value.id] = k.arg
+        return (clo, out) if out else (None, {})
+
+    def _callee_mutations(self, n, v, sc, mod):
+        clo, names = self._mutating_callee(n, sc, mod)
+        if clo is None or v.op != "call":
+            return
+        self._last_scope = None
+        r = self.apply(clo, list(v.args), dict(v.kw), v.get("dstar", []))
+        cs = self._last_scope
+        if r is None or r.op == "unknown" or cs is None:
+            return
+        for caller_name, param in names.items():
+            new = cs.vars.get(param)
+            if new is not None and new is not sc.lookup(caller_name):
+                sc.vars[caller_name] = new
+
+    def _names_mutated_by_calls(self, stmts, sc, mod):
+        out = []
+
+        def walk_(sts):
+            for st in sts:
+                if isinstance(st, ast.Expr):
+                    try:
+                        _c, names = self._mutating_callee(st.value, sc, mod)
+                    except Exception:
+                        names = {}
+                    for nm in names:
+                        if nm not in out:
+                            out.append(nm)
+                elif isinstance(st, (ast.If, ast.For, ast.While)):
+                    walk_(st.body)
+                    walk_(st.orelse)
+                elif isinstance(st, ast.With):
+                    walk_(st.body)
+                elif isinstance(st, ast.Try):
+                    walk_(st.body)
+                    walk_(st.orelse)
+                    walk_(st.finalbody)
+
+        walk_(stmts)
+        return out
 
     def _with_effects(self, v, sc, st, mod):
         if sc.effects:
@@ -779,9 +888,11 @@ class Evaluator:
             else:
                 bound[a.kwarg.arg] = T("dict", fnode, mod, items=[(const(k), v) for k, v in extra_kw.items()], dstar=list(dstar))
         sc.vars.update(bound)
+        self._last_scope = sc
         if isinstance(fnode, ast.Lambda):
             return self.ev(fnode.body, sc, mod)
         r = self.run(fnode.body, sc, mod)
+        self._last_scope = sc
         if r is None:
             r = const(None, fnode)
         return r
@@ -932,6 +1043,8 @@ def children(t):
         return [f["obj"], f["idx"], f["val"]]
     if o == "grow":
         return [f["obj"], f["val"]]
+    if o == "setattr":
+        return [f["store"]]
     if o == "comp":
         return [f["elt"], f["src"]] + list(f["conds"])
     if o == "seq":
